@@ -18,6 +18,7 @@ EXPLANATION = (
     "Message::serialize are excluded, see assumptions). TMR-3: Port::new creates the initial announce-receipt "
     "timer request and end_bmca hands out lifecycle.pending_action. TMR-4: the multiport-disable age written back "
     "by step_announce_age is old age + step (otherwise a passive port never ages out)."
+    ' TMR-8 (shared with C06 FM-8): the ageing step and the qualification-window interval arrive unchanged at the foreign master records, so a regularly announcing master can qualify.'
 )
 NOT_DECIDED = "liveness over time (bounded number of intervals), host timer behaviour, that requested durations are sensible"
 ASSUMPTIONS = ["Message::serialize into the 1024-byte packet buffer cannot fail for messages the library builds "
@@ -157,7 +158,7 @@ def run(ctx):
     # ---- TMR-8
     rep.rule("TMR-8", "a regularly announcing master can qualify: records age by the BMCA interval actually elapsed and the "
                       "qualification window is counted in the port's announce interval (a port that can never qualify its "
-                      "master stays Listening for ever) - shared with C06 FM-8", floor=9)
+                      "master stays Listening for ever) - shared with C06 FM-8", floor=7)
     from rules import flow_common as _flow
     _flow.check_ageing_step(rep, prog, "TMR-8")
     _flow.check_window_interval(rep, prog, "TMR-8")
